@@ -1,6 +1,7 @@
 use cfg_aliases::cfg_aliases;
 
 fn main() {
+    println!("cargo::rustc-check-cfg=cfg(iroh_verif)");
     // Setup cfg aliases
     cfg_aliases! {
         // Convenience aliases
